@@ -10,12 +10,15 @@ import NrfProofs.C07Frame
 namespace Nrf
 open Rf24 Nrf.Net
 
-/-- the transmitter is idle and will stay so: nothing to send, or MAX_RT latched; and no ACK
-    payload sits in the TX FIFO -/
+/-- the transmitter is idle and will stay so: nothing to send, or MAX_RT latched; no ACK
+    payload sits in the TX FIFO; and the TX FIFO holds what the chip can hold (three levels —
+    without this bound `resend()` does not re-establish the first clause:
+    `tools/c15_contract_counterexamples.lean`, CE2 / CE3) -/
 def TxQ (r : Radio) : Prop :=
-  (r.txFifo = [] ∨ r.flags &&& 0x10 ≠ 0) ∧ ∀ e ∈ r.txFifo, e.kind = TxKind.payload
+  (r.txFifo = [] ∨ r.flags &&& 0x10 ≠ 0) ∧ (∀ e ∈ r.txFifo, e.kind = TxKind.payload) ∧
+    r.txFifo.length ≤ 3
 
-theorem txq_default : TxQ (default : Radio) := ⟨Or.inl rfl, fun _ h => by cases h⟩
+theorem txq_default : TxQ (default : Radio) := ⟨Or.inl rfl, fun _ h => (by cases h), Nat.zero_le _⟩
 
 theorem tryTransmit_idle (j f : Nat) (w : World)
     (h : (w.radio j).txFifo = [] ∨ (w.radio j).flags &&& 0x10 ≠ 0) : World.tryTransmit j f w = w := by
@@ -102,14 +105,17 @@ theorem safeCmd_cmd (c : Nat) (d : Bytes) (h : c = 0x60 ∨ c = 0x61 ∨ c = 0xE
     · exact ⟨hq, List.suffix_refl _, rfl⟩
     · rename_i e rest he
       exact ⟨hq, by simp only; rw [he]; exact List.suffix_cons _ _, rfl⟩
-  · exact ⟨⟨Or.inl rfl, fun _ h => by cases h⟩, List.suffix_refl _, rfl⟩
+  · exact ⟨⟨Or.inl rfl, fun _ h => (by cases h), Nat.zero_le _⟩, List.suffix_refl _, rfl⟩
   · exact ⟨hq, List.nil_suffix, rfl⟩
   · exact ⟨hq, List.suffix_refl _, rfl⟩
 
-/-- the transmitter is idle, and the driver's cached status byte shows a latched MAX_RT (so the
-    next `send()` flushes the stale payload) -/
+/-- the transmitter is idle, the driver's cached status byte shows a latched MAX_RT (so the
+    next `send()` flushes the stale payload), and every payload in the RX FIFO is tagged with a
+    pipe number 0..5 (so that the RX_P_NO field of STATUS stays within its three bits and
+    `send()` does not mistake it for TX_DS / MAX_RT: `tools/c15_contract_counterexamples.lean`, CE1) -/
 def TxS (s : DrvState) : Prop :=
-  TxQ (s.w.radio s.d.rid) ∧ ((s.w.radio s.d.rid).flags &&& 0x10 ≠ 0 → s.d.status &&& 0x10 ≠ 0)
+  TxQ (s.w.radio s.d.rid) ∧ ((s.w.radio s.d.rid).flags &&& 0x10 ≠ 0 → s.d.status &&& 0x10 ≠ 0) ∧
+    ∀ e ∈ (s.w.radio s.d.rid).rxFifo, e.pipe ≤ 5
 
 theorem status_bit4 (r : Radio) (h : r.flags &&& 0x10 ≠ 0) : r.status &&& 0x10 ≠ 0 := by
   unfold Radio.status
@@ -216,8 +222,8 @@ theorem Prog.spi (s : DrvState) (out : Bytes) (hc : SafeCmd out) : Prog s (s.spi
   · show s.w.clock ≤ (s.w.spi s.d.rid out).1.clock
     rw [spi_clock]; omega
   · intro h
-    obtain ⟨k1, _, _, _, k5, k6⟩ := key s.w s.d.rid h.1
-    refine ⟨k1, ?_⟩
+    obtain ⟨k1, k2, _, _, k5, k6⟩ := key s.w s.d.rid h.1
+    refine ⟨k1, ?_, fun e he => h.2.2 e (k2.subset he)⟩
     intro hf
     show (s.spiStep out).d.status &&& 0x10 ≠ 0
     rw [hst, hhd _ _ 0 hinb, k6]
@@ -252,12 +258,12 @@ theorem Prog.ce (s : DrvState) (v : Bool) : Prog s (s.ceStep v) := by
   · show s.w.clock ≤ (s.w.setCE s.d.rid v).clock
     rw [setCE_clock]; omega
   · intro h
-    obtain ⟨k1, _, _, _, k5⟩ := key s.w s.d.rid h.1
-    refine ⟨k1, ?_⟩
+    obtain ⟨k1, k2, _, _, k5⟩ := key s.w s.d.rid h.1
+    refine ⟨k1, ?_, fun e he => h.2.2 e (k2.subset he)⟩
     intro hf
     have : ((s.ceStep v).w.radio (s.ceStep v).d.rid).flags = (s.w.radio s.d.rid).flags := k5
     rw [this] at hf
-    exact h.2 hf
+    exact h.2.1 hf
 
 theorem Prog.sleep (s : DrvState) (n : Nat) : Prog s (s.sleepStep n) :=
   ⟨rfl, by show s.w.clock ≤ s.w.clock + n; omega, id, fun _ => List.suffix_refl _, fun _ => rfl, fun _ => rfl,
@@ -267,10 +273,12 @@ theorem Prog.modShadow (s : DrvState) (f : Rf24 → Rf24) (hf : (f s.d).rid = s.
     (hst : (f s.d).status = s.d.status) (hsh : (f s.d).dynPl = s.d.dynPl ∧ (f s.d).features = s.d.features) :
     Prog s (s.modShadow f) :=
   ⟨hf, Nat.le_refl _, fun h => by
-      refine ⟨?_, ?_⟩
+      refine ⟨?_, ?_, ?_⟩
       · show TxQ (s.w.radio (f s.d).rid); rw [hf]; exact h.1
       · show (s.w.radio (f s.d).rid).flags &&& 0x10 ≠ 0 → (f s.d).status &&& 0x10 ≠ 0
-        rw [hf, hst]; exact h.2,
+        rw [hf, hst]; exact h.2.1
+      · show ∀ e ∈ (s.w.radio (f s.d).rid).rxFifo, e.pipe ≤ 5
+        rw [hf]; exact h.2.2,
     fun _ => List.suffix_refl _, fun _ => rfl, fun _ => rfl, hsh.1, hsh.2⟩
 
 /-! ### programs made of safe steps -/
